@@ -62,7 +62,7 @@ PROPS = {
         "n_quick": 70, "n_thorough": 1500, "known_for": ["C01", "C04", "C06", "C15", "C14", "C03", "C05"],
         "assumptions": ["downstream services are spec-conformant executors over their own schema (simulators, checked against Gql/RefExec.v per request)",
                         "gqlparser's validation of client queries is taken as given (only validated operations are emitted)"] + ["the Go scheduler between 'response read' and 'result sent' is not controlled by the harness; the transition system covers those interleavings"],
-        "partial": "only response-completion order is forced by the harness (gating transport with a settle window); the merge-order theorem covers plans with one root step (mergeMaps for several root results is not covered) and takes the independence of causally unrelated results as a hypothesis about the planner, which the recorded finding KF-key-clash-across-types refutes for one query shape",
+        "partial": "only response-completion order is forced by the harness (gating transport with a settle window); the merge-order theorems take the independence of causally unrelated results as a hypothesis about the planner, which the recorded finding KF-key-clash-across-types refutes for one query shape; the ghost ids of the transition system and the result records of the merge model are related by convention, not by a theorem",
     },
     "C13": {
         "harness": [{"name": "c13"}],
@@ -191,8 +191,8 @@ META = {
         "technique": "Coq routing theorem + side-effect counting simulators + differential correspondence",
     },
     "C06": {
-        "text": "Theorems: C06_results_causally_ordered (in the transition system of Execute — main, collector, one goroutine per step, unbuffered channel, error group, atomic counter — EVERY interleaving yields a results list in which a step's result comes after its spawner's); C06_merge_order_irrelevant_partial (the model of mergeExecutionResults: root result first, then the lookup results in ANY two orders whose inverted pairs are independent: both merges succeed together and give the same Go value; by commutation of independent results for every destination tree, congruence of the merge w.r.t. equality of Go values, and an induction showing any two such orders are related by adjacent swaps); C06_response_independent_of_arrival_order_partial (then the null-propagation errors and the response are identical, for every schema and selection: the null pass and the writer read maps by lookup, json.Marshal writes keys in byte order) with C06_shaped_is_the_gateways_response; C06_key_clash_across_types_refuted (the hypothesis fails on a real plan: known finding, reproduced on the real gateway). Tie + direct oracle: under a gating transport each generated request is run under up to 6 (thorough: 24) different causal release orders of its downstream responses, with faults and with a request limit; data bytes and error multisets (verbatim) must be identical across orders; one order per case is checked against the sequential gateway model (which merges in depth-first order — a further order).",
-        "note": "The independence of causally unrelated results is a property of the planner that is assumed by the theorem and observed by the harness (byte-identical answers under forced orders); plans with several root steps are outside the theorem.",
+        "text": "Theorems: C06_results_causally_ordered (in the transition system of Execute — main, collector, one goroutine per step, unbuffered channel, error group, atomic counter — EVERY interleaving yields a results list in which a step's result comes after its spawner's); C06_response_independent_of_arrival_order (the model of mergeExecutionResults followed by null propagation and the response writer, for ANY plan: results of root steps and of lookups in one list, any two arrival orders that begin with a root result and whose inverted pairs are independent: both merges succeed together, give the same Go value, the same null-propagation errors and the same response; by commutation of two lookups, of two root results (mergeMaps, no hypothesis beyond well-formedness) and of a root result with a lookup, for every destination tree; congruence of the merge w.r.t. equality of Go values; an induction showing any two such orders are related by adjacent swaps; the null pass and the writer read maps by lookup and json.Marshal writes keys in byte order) with C06_shaped_is_the_gateways_response; C06_inverted_pairs_are_causally_unrelated (for any two schedules of one plan, a pair of results they order differently has neither step an ancestor of the other); C06_key_clash_across_types_refuted (the hypothesis fails on a real plan: known finding, reproduced on the real gateway). Tie + direct oracle: under a gating transport each generated request is run under up to 6 (thorough: 24) different causal release orders of its downstream responses, with faults and with a request limit; data bytes and error multisets (verbatim) must be identical across orders; one order per case is checked against the sequential gateway model (which merges in depth-first order — a further order).",
+        "note": "The independence of causally unrelated results is a property of the planner that is assumed by the theorem and observed by the harness (byte-identical answers under forced orders); the one-root-step forms of the theorems are kept as C06_*_partial.",
         "technique": "Coq: invariant over all interleavings of a transition system; commutation/congruence proofs over the merge, null-propagation and writer models for all trees and orders; + schedule enumeration under a gating transport + model correspondence",
     },
     "C13": {
